@@ -182,6 +182,7 @@ class SectionConfigurer(object):
         section.set_metadata('description', config.get('description', ''))
         section.set_metadata('optional', config.get('optional', False))
         section.set_metadata('end_of_message', config.get('end_of_message', False))
+        section.set_metadata('is_truncated', config.get('is_truncated', False))
 
         for parameter in config['parameters']:
             data_type = parameter['type']
@@ -277,6 +278,8 @@ class SectionConfigurer(object):
         if PARAMETER_TYPE_TEMPLATE_DATA in parameter_types:
             new_config = deepcopy(config)
             new_config['end_of_message'] = True
+            # What follows the remaining parameters, i.e. the data, is not to be read at all
+            new_config['is_truncated'] = True
             new_config['parameters'] = config['parameters'][:parameter_types.index(PARAMETER_TYPE_TEMPLATE_DATA)]
             return new_config
         else:
